@@ -178,7 +178,7 @@ def corpus():
                   history=[], shift=None, _expect="D09"))
     # open findings
     c.append(dict(claim="convert", conv="BMSToOsu.convert", keys=4, base="objects", maps=[bms1], setmeta={},
-                  history=[dict(op="filter_after", map=0, list="hits", t=0, incl=False)], shift=None, _expect="N08a"))
+                  history=[dict(op="filter_after", map=0, list="hits", t=0, incl=False)], shift=None, _expect="D27"))
     c.append(dict(claim="convert", conv="BMSToQua.convert", keys=4, base="objects", maps=[bms1], setmeta={},
                   history=[], shift=None, _expect="D08"))
     # edge cases
@@ -654,8 +654,6 @@ def run(case, drv):
     if impl[0] == "err":
         agree = "err" in model and model["err"] == impl[1]
         ok = False                      # no target chart was produced for a source chart
-        if (not d["labels_free"]) and not d["fresh"] and "err" in model:
-            kf = "N08a"                 # BMSToOsu's label-aligned hitsound column on duplicate labels
         detail = dict(impl=impl, model=model if "err" in model else "ok")
         tags.append("impl-raises")
     else:
@@ -678,11 +676,6 @@ def run(case, drv):
                                   out=mask_out(out, "keysounds", ("hits", "holds"), {"o": "list"}))["ok"]
                     if all(v2.values()):
                         kf = "D08"
-                if kf is None and (not d["labels_free"]) and not d["fresh"]:
-                    v2 = drv.call("c08.spec", conv=conv, src=before, src_after=after, k=k,
-                                  out=mask_out(out, "hitsound_file", ("hits", "holds"), ""))["ok"]
-                    if all(v2.values()):
-                        kf = "N08a"
         if not agree:
             detail["diff"] = diff
         if not (ok and agree):
